@@ -20,6 +20,7 @@ type Config struct {
 	RawLog       bool   `json:"rawLog"`       // include raw bytes (hex) in recv/got events
 	SmallBuf     bool   `json:"smallBuf"`     // 8 KB socket buffers everywhere (back-pressure scenarios)
 	SockBuf      int    `json:"sockBuf"`      // explicit socket buffer size (overrides smallBuf's 8 KB)
+	SlowlogMs    int    `json:"slowlogMs"`    // slow-log threshold of the proxy (0 = off)
 	RaceLog      bool   `json:"raceLog"`      // log the state of the race controller before every step of a "race" plan
 	ExtraNodes   int    `json:"extraNodes"`   // additional listening nodes x1.. not in the initial topology
 }
